@@ -3,6 +3,8 @@ package main
 import (
 	"fmt"
 	"go/types"
+	"strconv"
+	"strings"
 )
 
 // ---- CE-WRITEMATCH: decoderDict.writeMatch is the sequential LZ copy on the ring ----
@@ -105,4 +107,185 @@ func ruleWriteMatchCE(c *Ctx, r *Report, prefix string) {
 		}
 	}
 	r.Check(bad == "", rule, "decoderDict.writeMatch", c.Pos(fn.Pos()), fmt.Sprintf("is the sequential LZ copy (overlap and ring wrap included) on %d ring states", cnt), bad)
+}
+
+// ---- CE-STATE-RESET: state.Reset gives exactly the state newState gives ----
+//
+// An LZMA2 chunk with "state reset" (and the first chunk after new properties) must start from the
+// initial coder state: every probability at its initial value, rep distances and state number zero,
+// the derived masks as for a fresh state. The rule builds a state with newState, overwrites every
+// number reachable from it (probabilities, rep, state number - not the properties) with a foreign
+// value, calls Reset and compares the result cell by cell with a second fresh state.
+// Necessary: a Reset that leaves anything behind decodes (or encodes) the reset chunk with a model
+// the other side does not have (C16: chunk kinds; C03: valid foreign streams rejected).
+func ruleStateResetCE(c *Ctx, r *Report, prefix string) {
+	rule := prefix + "CE-STATE-RESET"
+	newState, reset := c.Func("lzma", "newState"), c.Func("lzma", "state.Reset")
+	stT, prT := c.Type("lzma", "state"), c.Type("lzma", "Properties")
+	if newState == nil || reset == nil || stT == nil || prT == nil {
+		return
+	}
+	iProps := fieldIndex(stT, "Properties")
+	bad, n := "", 0
+	for _, pr := range [][3]int64{{3, 0, 2}, {0, 2, 4}, {1, 1, 3}} {
+		it := types.Typ[types.Int]
+		props := aval{k: kStruct, typ: prT, flds: map[int]aval{
+			fieldIndex(prT, "LC"): aInt(pr[0], it), fieldIndex(prT, "LP"): aInt(pr[1], it), fieldIndex(prT, "PB"): aInt(pr[2], it)}}
+		mk := func() (*cell, *Interp, string) {
+			in := NewInterp(c)
+			in.MaxSteps = 8000000
+			res := in.Call(newState, []aval{props})
+			if !res.OK || res.Panicked || len(res.Rets) != 1 || res.Rets[0].k != kPtr || res.Rets[0].cell == nil {
+				return nil, in, "cannot evaluate newState: " + in.Undecided
+			}
+			return res.Rets[0].cell, in, ""
+		}
+		fresh, _, why := mk()
+		if why != "" {
+			bad = why
+			break
+		}
+		used, in2, why := mk()
+		if why != "" {
+			bad = why
+			break
+		}
+		// dirty every number below the state except the properties
+		seen := map[*cell]bool{}
+		var dirty func(cl *cell, depth int)
+		dirty = func(cl *cell, depth int) {
+			if cl == nil || seen[cl] || depth > 12 {
+				return
+			}
+			seen[cl] = true
+			// model state only: probabilities (type prob) and, below, rep / state; structural constants
+			// such as the bit width of a tree never change in a real run
+			if cl.v.isInt() && cl.v.typ != nil && isNamedType(cl.v.typ, "prob") {
+				cl.v = aInt(777, cl.v.typ)
+			}
+			if cl.v.k == kSlice {
+				for i := cl.v.lo; i < cl.v.hi; i++ {
+					dirty(cl.v.arr[i], depth+1)
+				}
+			}
+			if cl.v.k == kPtr {
+				dirty(cl.v.cell, depth+1)
+			}
+			for _, f := range cl.fields {
+				dirty(f, depth+1)
+			}
+			for _, e := range cl.elems {
+				dirty(e, depth+1)
+			}
+		}
+		for i, f := range used.fields {
+			if i != iProps {
+				dirty(f, 0)
+			}
+		}
+		for _, name := range []string{"rep", "state"} {
+			if i := fieldIndex(stT, name); i >= 0 {
+				f := used.field(i)
+				if f.v.isInt() {
+					f.v = aInt(5, f.v.typ)
+				}
+				for _, e := range f.elems {
+					if e.v.isInt() {
+						e.v = aInt(9, e.v.typ)
+					}
+				}
+			}
+		}
+		res := in2.Call(reset, []aval{{k: kPtr, cell: used}})
+		if !res.OK || res.Panicked {
+			bad = "cannot evaluate state.Reset: " + in2.Undecided
+			break
+		}
+		n++
+		if where := cellDiff(fresh, used, "state", map[*cell]bool{}, 0); where != "" {
+			// name the top-level field
+			if st, isSt := stT.Underlying().(*types.Struct); isSt && strings.HasPrefix(where, "state.#") {
+				rest := where[len("state.#"):]
+				j := 0
+				for j < len(rest) && rest[j] >= '0' && rest[j] <= '9' {
+					j++
+				}
+				if k, err := strconv.Atoi(rest[:j]); err == nil && k < st.NumFields() {
+					where = "state." + st.Field(k).Name() + rest[j:]
+				}
+			}
+			bad = fmt.Sprintf("after state.Reset (lc=%d lp=%d pb=%d) %s differs from a fresh state: a chunk that resets the coder state starts with left-overs of the previous chunk, the decoder no longer follows the encoder of the stream", pr[0], pr[1], pr[2], where)
+			break
+		}
+	}
+	r.Check(bad == "" && n > 0, rule, "state.Reset", c.Pos(reset.Pos()), fmt.Sprintf("equals newState cell by cell for %d property sets", n), bad)
+}
+
+// cellDiff: the first place where two cell trees differ ("" if none).
+func cellDiff(a, b *cell, path string, seen map[*cell]bool, depth int) string {
+	if a == nil || b == nil {
+		if a != b {
+			return path
+		}
+		return ""
+	}
+	if seen[a] || depth > 14 {
+		return ""
+	}
+	seen[a] = true
+	if a.v.k != b.v.k {
+		// a nil slice and an empty one are different values but the same table
+		if !((a.v.k == kNil || a.v.k == kSlice) && (b.v.k == kNil || b.v.k == kSlice)) {
+			return path
+		}
+	}
+	switch a.v.k {
+	case kConst:
+		if b.v.k != kConst || a.v.c == nil || b.v.c == nil || a.v.c.ExactString() != b.v.c.ExactString() {
+			return path
+		}
+	case kSlice, kNil:
+		la, lb := 0, 0
+		if a.v.k == kSlice {
+			la = a.v.hi - a.v.lo
+		}
+		if b.v.k == kSlice {
+			lb = b.v.hi - b.v.lo
+		}
+		if la != lb {
+			return fmt.Sprintf("%s (length %d, fresh %d)", path, lb, la)
+		}
+		for i := 0; i < la; i++ {
+			if d := cellDiff(a.v.arr[a.v.lo+i], b.v.arr[b.v.lo+i], fmt.Sprintf("%s[%d]", path, i), seen, depth+1); d != "" {
+				return d
+			}
+		}
+	case kPtr:
+		if d := cellDiff(a.v.cell, b.v.cell, path+"->", seen, depth+1); d != "" {
+			return d
+		}
+	}
+	for i, f := range a.fields {
+		if d := cellDiff(f, b.fields[i], fmt.Sprintf("%s.#%d", path, i), seen, depth+1); d != "" {
+			return d
+		}
+	}
+	for i, e := range a.elems {
+		if i >= len(b.elems) {
+			return path
+		}
+		if d := cellDiff(e, b.elems[i], fmt.Sprintf("%s[%d]", path, i), seen, depth+1); d != "" {
+			return d
+		}
+	}
+	return ""
+}
+
+func init() {
+	debugRules["statereset"] = func(c *Ctx, r *Report) { ruleStateResetCE(c, r, "") }
+}
+
+func isNamedType(t types.Type, name string) bool {
+	nt, ok := t.(*types.Named)
+	return ok && nt.Obj().Name() == name
 }
